@@ -42,8 +42,10 @@ VND = 'application/vnd.falcon.v1+json'
 # content types for which a handler is designated by the documentation (exact key, key + parameters,
 # missing header -> default media type) or registered by this harness (VND)
 JSON_CTS = [None, JSON, JSON + '; charset=utf-8', JSON + ';charset=UTF-8', JSON + '; version=1',
-            VND, VND + '; charset=utf-8']
-FORM_CTS = [FORM, FORM + '; charset=utf-8', FORM + ';charset=UTF-8']
+            VND, VND + '; charset=utf-8',
+            # header field values are ISO-8859-1 on the wire (obs-text): parameters with non-UTF-8 octets
+            JSON + '; note="caf\xe9"', VND + '; title=na\xefve\xff']
+FORM_CTS = [FORM, FORM + '; charset=utf-8', FORM + ';charset=UTF-8', FORM + '; x="\xff\x80"']
 # content types on which 415 is acceptable; if a handler is chosen anyway it must behave as JSON
 EITHER_CTS = ['application/problem+json', 'APPLICATION/JSON', 'Application/Json; charset=utf-8',
               'text/plain', 'application/jsonx', 'text/json', 'application/vnd.other+json;v=2']
@@ -347,6 +349,38 @@ class FaultyAsyncHandler(FaultySyncHandler):
         return _handler_act(await stream.read())
 
 
+PREFIX_SYNC = 'application/x-c12-prefix-sync'
+PREFIX_ASYNC = 'application/x-c12-prefix-async'
+PREFIX_DOC = {'k': [1, 'é'], 'n': None}
+PREFIX_JSON = json.dumps(PREFIX_DOC).encode()
+
+
+class PrefixSyncHandler(falcon.media.BaseHandler):
+    """Parses only a length-prefixed head of the body and leaves the rest to the framework:
+    exhaust_stream = True (documented BaseHandler attribute). Sync interface only."""
+
+    exhaust_stream = True
+
+    def deserialize(self, stream, content_type, content_length):
+        CUR['hcalls'] = CUR.get('hcalls', 0) + 1
+        n = int(stream.read(4))
+        return json.loads(stream.read(n))
+
+    def serialize(self, media, content_type):
+        return b'-'
+
+
+class PrefixAsyncHandler(PrefixSyncHandler):
+    async def deserialize_async(self, stream, content_type, content_length):
+        CUR['hcalls'] = CUR.get('hcalls', 0) + 1
+        n = int(await stream.read(4))
+        return json.loads(await stream.read(n))
+
+
+def prefix_body(tail):
+    return b'%04d' % len(PREFIX_JSON) + PREFIX_JSON + b'#' * tail
+
+
 class FlakyInput(W.FakeInput):
     """wsgi.input whose k-th read (0-based) fails the way a closing connection does."""
 
@@ -376,7 +410,7 @@ _APPS = {}
 # ---- handler configuration (documented knobs of JSONHandler: dumps / loads, str or bytes; subclassing)
 
 def _bytes_dumps(obj):
-    return json.dumps(obj, ensure_ascii=False).encode('utf-8')              # what orjson-style libraries return
+    return json.dumps(obj, ensure_ascii=False).encode('utf-8', 'backslashreplace')   # bytes-returning dumps
 
 
 def _bytes_ascii_compact_dumps(obj):
@@ -458,7 +492,7 @@ class LengthAwareJSONHandler(falcon.media.BaseHandler):
         pass
 
     def serialize(self, media, content_type):
-        return json.dumps(media, ensure_ascii=False).encode(_charset_of(content_type))
+        return json.dumps(media, ensure_ascii=False).encode(_charset_of(content_type), 'backslashreplace')
 
     def deserialize(self, stream, content_type, content_length):
         if not content_length:
@@ -589,6 +623,8 @@ def apps():
                     opts.media_handlers[FORM] = fcls(**FORM_OPTS[key[4]])
             app.req_options.media_handlers[FAULTY_SYNC] = FaultySyncHandler()
             app.req_options.media_handlers[FAULTY_ASYNC] = FaultyAsyncHandler()
+            app.req_options.media_handlers[PREFIX_SYNC] = PrefixSyncHandler()
+            app.req_options.media_handlers[PREFIX_ASYNC] = PrefixAsyncHandler()
         w.add_route('/doc', DocW())
         w.add_route('/echo', EchoW())
         a.add_route('/doc', DocA())
@@ -945,12 +981,16 @@ CHARS = ['a', 'Z', '0', ' ', '"', '\\', '/', '\x00', '\x01', '\x1f', '\x7f', '\n
          '+', '%', '%41', ';', ',', '#', '?', '[', ']', '{', '}', ':', "'", '<', '>', '~', '*', '\\u0041', '\\n']
 
 
-def gen_str(rng, maxlen=12):
+SURROGATES = ['\ud800-', '\udbff-', '\udc00', '\udfff']      # a high one is always followed by a non-surrogate
+
+
+def gen_str(rng, maxlen=12, surrogates=False):
     r = rng.random()
     if r < 0.1:
         return ''
     n = rng.randint(1, maxlen) if r < 0.9 else rng.randint(50, 300)
-    return ''.join(rng.choice(CHARS) if rng.random() < 0.7 else chr(rng.choice(
+    return ''.join(rng.choice(SURROGATES) if (surrogates and rng.random() < 0.03) else
+                   rng.choice(CHARS) if rng.random() < 0.7 else chr(rng.choice(
         [rng.randint(0x20, 0x7e), rng.randint(0xa0, 0xd7ff), rng.randint(0xe000, 0xffff),
          rng.randint(0x10000, 0x10ffff)])) for _ in range(n))
 
@@ -996,7 +1036,7 @@ def gen_scalar(rng):
         return gen_int(rng)
     if r < 0.6:
         return gen_float(rng)
-    return gen_str(rng)
+    return gen_str(rng, surrogates=True)
 
 
 def gen_doc(rng, depth):
@@ -1005,7 +1045,7 @@ def gen_doc(rng, depth):
     n = rng.choice([0, 1, 1, 2, 2, 3, 4]) if depth > 2 else rng.choice([0, 1, 2, 3, 5, 8])
     if rng.random() < 0.5:
         return [gen_doc(rng, depth - 1) for _ in range(n)]
-    return {gen_str(rng, 6): gen_doc(rng, depth - 1) for _ in range(n)}
+    return {gen_str(rng, 6, surrogates=True): gen_doc(rng, depth - 1) for _ in range(n)}
 
 
 def gen_top_doc(rng):
@@ -1086,6 +1126,7 @@ def corpus_docs():
             {'k': [1, 'é']}, ''.join(CHARS), CHARS[:], {c: c for c in CHARS}, [[[[[[1]]]]]],
             {'a': {'b': {'c': {'d': {'e': {'f': 'deep'}}}}}}, [True, False, None, 0, 0.0, '', [], {}],
             {'true': True, 'false': False, 'null': None, '0': 0}, 'null', 'true', '[]', '{"a": 1}', 'NaN',
+            ['\ud800', '\udfff', 'a\ud83d-\ude00b', {'\udc00k': '\udbff'}], '\ud800',
             ['é', 'e\u0301'], {'é': 1, 'e\u0301': 2}, '\x00', ['\U0001F600' * 40], 'a' * 70000]
     docs += INTS + FLOATS
     return docs
@@ -1161,6 +1202,7 @@ def phase_histories(rec, maxlen):
         ('json', JSON, b' '), ('json', JSON, b'null'), ('json', VND, b''),
         ('form', FORM, b'a=1&a=2&b=%C3%A9'), ('form', FORM, b''), ('form', FORM, b'a=\xe9'),
         ('json', 'text/plain', b'{"a": 1}'), ('json', 'application/problem+json', b''),
+        ('json', JSON_CTS[-2], b'{"a": 1}'), ('form', FORM_CTS[-1], b'a=1'), ('json', 'text/plain; x=\xe9', b'1'),
     ]
     idx = 0
     for L in range(1, maxlen + 1):
@@ -1469,7 +1511,7 @@ def phase_faulty(rec, maxlen):
                     rec.count('phase.faulty')
 
 
-CONFIG_DOCS = [{'k': [1, 'é\U0001F600', -2.5e-3, True, None], 'o': {'': '\\"\n/\x00\u2028'}}, [], {}, 0, False, '',
+CONFIG_DOCS = [['\ud800', {'\udfff-': 'x\udbff-'}], {'k': [1, 'é\U0001F600', -2.5e-3, True, None], 'o': {'': '\\"\n/\x00\u2028'}}, [], {}, 0, False, '',
                'é', ['e\u0301', '\U0010FFFF', '\x7f'], 10 ** 30, 1.5e300, [[[[[[1]]]]]], {'b': 1, 'a': {'d': 2, 'c': [3]}},
                'x' * 70000]
 
@@ -1619,7 +1661,7 @@ def phase_form_options(rec):
                 if idx % rec.nshards != rec.shard:
                     continue
                 d = admissible_form(doc)
-                roundtrip(rec, 'form', d, FORM_CTS[idx % 3], None, tag='form-options', pre=idx % 6)
+                roundtrip(rec, 'form', d, FORM_CTS[idx % len(FORM_CTS)], None, tag='form-options', pre=idx % 6)
                 alt = M.ref_form_dump(d)
                 stack = 'wa'[idx // 2 % 2]
                 run_request(rec, stack, 'form', FORM, 'designated', alt, ['G', 'M'], False,
@@ -1717,6 +1759,83 @@ def phase_framing(rec, maxlen):
         set_cfg(None)
 
 
+def run_settled(rec, stack, ct, body, history, fault, chunks=None, with_cl=True, tag='drain'):
+    """A handler with exhaust_stream = True parses the head of the body; the framework drains the rest, and that
+    drain may fail (connection lost). Whatever the first access did, the following ones are settled: the one
+    parsed document (or the first access' own error), no stream operation, no second handler invocation."""
+    wit = {'mode': 'settled', 'cfg': CFG[0], 'stack': stack, 'ct': ct, 'body_len': len(body),
+           'history': ''.join(history), 'fault': fault, 'chunks': chunks, 'with_cl': with_cl, 'tag': tag}
+    log, status, problems = deserialize(stack, ct, body, history, False, chunks, with_cl, 0, b'', fault)
+    hdelta = CUR.get('hdelta', [])
+    rec.count('mon.drain.' + stack)
+    fired = []
+
+    def fire(label, detail):
+        fired.append(label)
+        rec.violation(label, dict(wit, detail=detail, log=describe(log), hdelta=hdelta, status=status))
+
+    if problems:
+        fire('drain-request-failed', problems[:3])
+    if len(log) != len(history) or len(hdelta) != len(history):
+        fire('responder-not-run', 'log %d entries for %d calls' % (len(log), len(history)))
+        return False
+    # harness self-check: the planned fault really happened / the handler really ran during the first access
+    # (a sync-only handler on ASGI is fed by the adapter, which may hit the fault before the handler runs)
+    if (fault and CUR.get('io_failures', 0) < 1) or (not fault and hdelta[0] != 1):
+        rec.count('harness.fault_not_injected')
+        return True
+    model = M.MediaModel(('settled', lambda v: M.same_doc(PREFIX_DOC, v)))
+    for i, (op, default, k, payload, touched) in enumerate(log):
+        rec.count('mon.history_step')
+        for label, complaint in model.step(op, default, k, payload, touched):
+            fire(label, complaint)
+        if i > 0:
+            rec.count('mon.drain.repeat_call.' + ('value' if k == 'ret' else 'error'))
+            if hdelta[i]:
+                fire('handler-invoked-again', 'call #%d invoked the media handler %d more time(s)' % (i + 1, hdelta[i]))
+    rec.count('drain.first_' + ('value' if log[0][2] == 'ret' else type(log[0][3]).__name__))
+    if status != 200:
+        fire('wire-status', 'responder completed but status is %r' % status)
+    scribble_log(rec, log)
+    rec.case(('drain', CFG[0], stack, ct, len(body), ''.join(history), repr(fault), tuple(chunks or ()), with_cl))
+    return not fired
+
+
+def phase_drain(rec, maxlen):
+    """exhaust_stream handlers (sync-only and async) x body tails (none, short, > one 64 KB drain chunk) x the drain
+    failing at its 1st / 2nd read (or not at all) x all histories of 2..maxlen accesses x both stacks."""
+    idx = 0
+    try:
+        for cfg in (None, ('default', 'default', 'sub', 'sub', 'default')):
+            set_cfg(cfg)
+            for ct in (PREFIX_SYNC, PREFIX_ASYNC):
+                for tail in (0, 10, 150000):
+                    body = prefix_body(tail)
+                    variants = {'w': [(None, None)], 'a': [(None, None), (None, [len(body) // 5 + 1] * 5)]}
+                    if tail:
+                        # WSGI reads: #0 length, #1 document, #2.. drain ; ASGI receive: #0 app, #1.. stream
+                        variants['w'] += [({'io_fail_at': 2}, None)] + ([({'io_fail_at': 3}, None)] if tail > 70000 else [])
+                        nev = 6
+                        size = len(body) // nev + 1
+                        head_events = -(-(4 + len(PREFIX_JSON)) // size)
+                        for k in sorted({max(head_events, 1) + 0, nev - 1}):
+                            if k >= head_events and k >= 1:
+                                variants['a'].append(({'io_fail_at': k}, [size] * nev))
+                    for L in range(2, maxlen + 1):
+                        for hist in itertools.product(CODES, repeat=L):
+                            for stack in 'wa':
+                                for fault, chunks in variants[stack]:
+                                    idx += 1
+                                    if idx % rec.nshards != rec.shard:
+                                        continue
+                                    run_settled(rec, stack, ct, body, list(hist), fault, chunks,
+                                                with_cl=bool(idx // 2 % 2) or stack == 'w')
+                                    rec.count('phase.drain')
+                                    rec.count('drain.fault' if fault else 'drain.clean')
+    finally:
+        set_cfg(None)
+
+
 def phase_interrupted(rec, quick):
     """ASGI: the first access(es) to the media are interrupted (task cancelled / wait_for deadline) while waiting
     for the d-th body event, for every d and every pair d1 < d2, then the media is accessed normally.
@@ -1779,7 +1898,7 @@ def phase_hostile(rec):
             if idx % rec.nshards != rec.shard:
                 continue
             CUR_GEN['desc'] = desc
-            run_request(rec, stack, 'form', FORM_CTS[idx % 3], 'designated', body, ['G', 'M'], idx % 2 == 0,
+            run_request(rec, stack, 'form', FORM_CTS[idx % len(FORM_CTS)], 'designated', body, ['G', 'M'], idx % 2 == 0,
                         [7] * (len(body) // 7) if stack == 'a' and idx % 4 < 2 else None, with_cl=idx % 4 != 1,
                         tag='hostile:' + desc)
             rec.count('phase.hostile_form')
@@ -1893,6 +2012,7 @@ def run(rec):
     phase_form_options(rec)
     phase_repeated_bodies(rec)
     phase_framing(rec, 2 if quick else 3)
+    phase_drain(rec, 2 if quick else 3)
     phase_interrupted(rec, quick)
     phase_histories(rec, 4 if quick else 5)
     phase_truncations(rec, quick)
@@ -1970,6 +2090,12 @@ def run(rec):
     rec.floor('config.lengthaware.json', 60)
     rec.floor('config.lengthaware.requests', 30)
     rec.floor('config.lengthaware.form', 20)
+    rec.floor('phase.drain', 500)
+    rec.floor('drain.fault', 200)
+    rec.floor('drain.clean', 200)
+    rec.floor('mon.drain.w', 200)
+    rec.floor('mon.drain.a', 300)
+    rec.floor('mon.drain.repeat_call.value', 300)
     rec.floor('phase.framing', 5000)
     rec.floor('mon.framing.w', 2000)
     rec.floor('mon.framing.a', 2000)
@@ -2026,6 +2152,14 @@ def replay(rec, w):
             for op, default, k, payload, touched in log:
                 for label, complaint in model.step(op, default, k, payload, touched):
                     rec.violation('roundtrip-' + label, dict(wit, detail=complaint))
+        rec.case(('replay', 1))
+        rec.case(('replay', 2))
+        return
+    if wit.get('mode') == 'settled':
+        tail = wit['body_len'] - 4 - len(PREFIX_JSON)
+        ok = run_settled(rec, wit['stack'], wit['ct'], prefix_body(tail), list(wit['history']), wit.get('fault'),
+                         wit.get('chunks'), wit.get('with_cl', True), tag='replay')
+        print('replayed:', 'no monitor fired' if ok else 'monitor fired')
         rec.case(('replay', 1))
         rec.case(('replay', 2))
         return
